@@ -40,6 +40,8 @@ class Node:
             return 'except %s' % (src(self.ast.type) if self.ast.type is not None else '')
         if self.kind == 'afail':
             return 'assert-fail ' + src(self.ast.test)
+        if self.kind == 'finally':
+            return 'finally (exception in flight)'
         if self.kind == 'stmt' and isinstance(self.ast, (ast.With,)):
             return 'with ' + ', '.join(src(i) for i in self.ast.items)
         if self.kind == 'stmt' and isinstance(self.ast, (ast.FunctionDef, ast.ClassDef)):
@@ -77,6 +79,7 @@ class CFG:
         self.exit = self._new('exit', None, None, ())
         self.xexit = self._new('xexit', None, None, ())
         self.loops = []   # (head nodes list, ast loop)
+        self.finally_exc = {}   # id(ast.Try) -> (entry node, exit node) of the copy of the finally block run with an exception in flight
 
     def _new(self, kind, astnode, stmt, try_ctx):
         n = Node(len(self.nodes), kind, astnode, stmt, try_ctx)
@@ -221,7 +224,8 @@ class _Builder:
     def __init__(self, fi):
         self.fi = fi
         self.g = CFG(fi)
-        self.loop_stack = []   # (continue_target, break_list)
+        self.loop_stack = []   # (continue_target, break_list, depth of fin_stack at loop entry)
+        self.fin_stack = []    # enclosing try statements with a finally block: (ast.Try, ctx of that statement)
 
     def build(self):
         body = self.fi.node.body
@@ -229,6 +233,17 @@ class _Builder:
         for n, lab in outs:
             CFG.link(n, lab, self.g.exit)
         return self.g
+
+    def run_finallies(self, ins, down_to):
+        """return / break / continue leaving try statements that have a finally block: inline a copy of each such block,
+        innermost first, down to (not including) stack depth `down_to`"""
+        saved = self.fin_stack
+        for k in range(len(saved) - 1, down_to - 1, -1):
+            st, ctx = saved[k]
+            self.fin_stack = saved[:k]
+            ins = self.block(st.finalbody, ins, ctx)
+        self.fin_stack = saved
+        return ins
 
     def connect(self, ins, node):
         for n, lab in ins:
@@ -283,7 +298,7 @@ class _Builder:
             else:
                 t, f = self.cond(st.test, [(join, None)], ctx, st)
             brk = []
-            self.loop_stack.append((join, brk))
+            self.loop_stack.append((join, brk, len(self.fin_stack)))
             outs = self.block(st.body, t, ctx)
             self.loop_stack.pop()
             self.connect(outs, join)
@@ -294,7 +309,7 @@ class _Builder:
             head = g._new('iter', st, st, ctx)
             self.connect(ins, head)
             brk = []
-            self.loop_stack.append((head, brk))
+            self.loop_stack.append((head, brk, len(self.fin_stack)))
             outs = self.block(st.body, [(head, 'body')], ctx)
             self.loop_stack.pop()
             self.connect(outs, head)
@@ -304,7 +319,14 @@ class _Builder:
             return res + brk
         if isinstance(st, ast.Try):
             if st.finalbody:
-                raise AnalysisError('CFG: try/finally not supported (%s:%d)' % (self.fi.qual, st.lineno))
+                # copy of the finally block that runs while an exception propagates: entered through exception edges
+                # (added by the escape analysis), left by re-raising at its exit node, which lives in the outer context
+                fentry = g._new('finally', st, st, ctx)
+                fouts = self.block(st.finalbody, [(fentry, None)], ctx)
+                fexit = g._new('finally', st, st, ctx)
+                self.connect(fouts, fexit)
+                g.finally_exc[id(st)] = (fentry, fexit)
+                self.fin_stack.append((st, ctx))
             hnodes = []
             for h in st.handlers:
                 hn = g._new('handler', h, st, ctx)
@@ -317,6 +339,10 @@ class _Builder:
             for h, hn in zip(st.handlers, hnodes):
                 houts = self.block(h.body, [(hn, None)], ctx + ((st, 'handler', hn),))
                 outs = outs + houts
+            if st.finalbody:
+                self.fin_stack.pop()
+                # normal completion of body / else / handlers runs the finally block, then falls through
+                outs = self.block(st.finalbody, outs, ctx)
             return outs
         if isinstance(st, (ast.With, ast.AsyncWith)):
             n = g._new('stmt', st, st, ctx)
@@ -330,7 +356,9 @@ class _Builder:
         if isinstance(st, ast.Return):
             n = g._new('stmt', st, st, ctx)
             self.connect(ins, n)
-            CFG.link(n, None, g.exit)
+            outs = self.run_finallies([(n, None)], 0)
+            for m, lab in outs:
+                CFG.link(m, lab, g.exit)
             return []
         if isinstance(st, ast.Raise):
             n = g._new('stmt', st, st, ctx)
@@ -341,12 +369,13 @@ class _Builder:
             self.connect(ins, n)
             if not self.loop_stack:
                 raise AnalysisError('break outside loop')
-            self.loop_stack[-1][1].append((n, None))
+            self.loop_stack[-1][1].extend(self.run_finallies([(n, None)], self.loop_stack[-1][2]))
             return []
         if isinstance(st, ast.Continue):
             n = g._new('stmt', st, st, ctx)
             self.connect(ins, n)
-            CFG.link(n, None, self.loop_stack[-1][0])
+            for m, lab in self.run_finallies([(n, None)], self.loop_stack[-1][2]):
+                CFG.link(m, lab, self.loop_stack[-1][0])
             return []
         if isinstance(st, (ast.Assign, ast.AugAssign, ast.AnnAssign, ast.Expr, ast.Delete, ast.Pass,
                            ast.Import, ast.ImportFrom, ast.Global, ast.Nonlocal,
